@@ -459,7 +459,7 @@ func retResults(r *ssa.Return) []ssa.Value {
 			continue
 		}
 		al, ok := ld.X.(*ssa.Alloc)
-		if !ok || al.Heap {
+		if !ok || (al.Heap && closureWrites(al)) {
 			continue
 		}
 		// last store to the alloc in this block before the load
@@ -477,6 +477,52 @@ func retResults(r *ssa.Return) []ssa.Value {
 		}
 	}
 	return out
+}
+
+// closureWrites: a heap cell (named result captured by a closure, typically a deferred one)
+// is written by one of the closures that capture it, or escapes in another way; then the
+// value stored before the return is not necessarily the value returned.
+func closureWrites(al *ssa.Alloc) bool {
+	if al.Referrers() == nil {
+		return false
+	}
+	for _, r := range *al.Referrers() {
+		switch u := r.(type) {
+		case *ssa.Store:
+			if u.Val == ssa.Value(al) {
+				return true // address stored somewhere
+			}
+		case *ssa.UnOp, *ssa.DebugRef:
+		case *ssa.MakeClosure:
+			f, ok := u.Fn.(*ssa.Function)
+			if !ok {
+				return true
+			}
+			for i, b := range u.Bindings {
+				if b != ssa.Value(al) || i >= len(f.FreeVars) {
+					continue
+				}
+				fv := f.FreeVars[i]
+				if fv.Referrers() == nil {
+					continue
+				}
+				for _, fr := range *fv.Referrers() {
+					switch x := fr.(type) {
+					case *ssa.Store:
+						if x.Addr == ssa.Value(fv) {
+							return true
+						}
+					case *ssa.UnOp, *ssa.DebugRef:
+					default:
+						return true // passed on: unknown
+					}
+				}
+			}
+		default:
+			return true
+		}
+	}
+	return false
 }
 
 // returnsOf lists the return instructions of fn, excluding the synthetic recover block.
@@ -559,6 +605,8 @@ func condPolarity(cond ssa.Value, v ssa.Value, depth int) (acceptOnTrue bool, ok
 func edgesOfVerdict(v ssa.Value) verdictEdges {
 	var out verdictEdges
 	seen := map[ssa.Value]bool{}
+	aliases := []ssa.Value{v}
+	isAlias := map[ssa.Value]bool{v: true}
 	var visit func(x ssa.Value, neg bool)
 	visit = func(x ssa.Value, neg bool) {
 		if x == nil || seen[x] || x.Referrers() == nil {
@@ -567,8 +615,40 @@ func edgesOfVerdict(v ssa.Value) verdictEdges {
 		seen[x] = true
 		for _, r := range *x.Referrers() {
 			switch u := r.(type) {
+			case *ssa.Store:
+				// verdict spilled into a cell (named result) and reloaded in the same block
+				al, isAl := u.Addr.(*ssa.Alloc)
+				if !isAl || u.Val != x || !isAlias[x] {
+					continue
+				}
+				after := false
+				for _, in := range u.Block().Instrs {
+					if in == ssa.Instruction(u) {
+						after = true
+						continue
+					}
+					if !after {
+						continue
+					}
+					if st2, ok := in.(*ssa.Store); ok && st2.Addr == ssa.Value(al) {
+						break
+					}
+					if _, isCall := in.(ssa.CallInstruction); isCall && al.Heap && closureWrites(al) {
+						break
+					}
+					if ld, ok := in.(*ssa.UnOp); ok && ld.Op == token.MUL && ld.X == ssa.Value(al) {
+						isAlias[ld] = true
+						aliases = append(aliases, ld)
+						visit(ld, neg)
+					}
+				}
 			case *ssa.If:
-				acc, ok := condPolarity(u.Cond, v, 0)
+				acc, ok := false, false
+				for _, a := range aliases {
+					if acc, ok = condPolarity(u.Cond, a, 0); ok {
+						break
+					}
+				}
 				if !ok {
 					continue
 				}
